@@ -228,7 +228,7 @@ def struct(m):
         txt = m.raw_text
         if isinstance(m, (models.InlineComment, models.Ignored)):
             # trailing blanks are lexed into the comment / ignored-line lexeme (set aside by C06)
-            txt = txt.rstrip(' \t')
+            txt = txt.rstrip(' \t\r')
         return (type(m).__name__, txt)
     if isinstance(m, internal.Repeated):
         return ('Repeated', tuple(struct(x) for x in m.items))
